@@ -2,6 +2,7 @@ SPECIFICATION Spec
 CONSTANTS
   MaxCount = 6
   HashPeriods = 2
+  FviExcl = FALSE
   SwapDirs = TRUE
-INVARIANTS ArithOK ReportedOK InRange ClientIsS HashConsistent MapOK Unique
+INVARIANTS ArithOK ReportedOK FviOK InRange ClientIsS HashConsistent MapOK Unique
 CHECK_DEADLOCK FALSE
